@@ -44,6 +44,14 @@ def run_fragment(body: Sequence[ast.stmt], names: Dict[str, Any], attrs: Optiona
 
         from .astutil import attr_chain as _chain
 
+        if isinstance(t.value, ast.Name) and isinstance(env.get(t.value.id), dict):
+            key = fold(t.slice)
+            if isinstance(key, list):
+                raise Unfoldable("dictionary key")
+            d_ = dict(env[t.value.id])
+            d_[key] = v
+            env[t.value.id] = d_
+            return
         in_attrs = isinstance(t.value, ast.Attribute) and isinstance(attrs.get(_chain(t.value)), list)
         if not in_attrs and not (isinstance(t.value, ast.Name) and isinstance(env.get(t.value.id), list)):
             raise Unfoldable("subscript store into something that is not a list value")
